@@ -11,8 +11,8 @@ import (
 
 // Lock levels.
 const (
-	LNone int8 = 0
-	LRead int8 = 1
+	LNone  int8 = 0
+	LRead  int8 = 1
 	LWrite int8 = 2
 )
 
@@ -73,13 +73,13 @@ func equalState(a, b LState) bool {
 
 // Access is one access to a guarded field.
 type Access struct {
-	F      *FuncInfo
-	Field  string
-	Mutex  string
-	Write  bool
-	Held   int8
-	Pos    token.Pos
-	How    string // "assign", "map-store", "delete", "call <callee>", "read"
+	F        *FuncInfo
+	Field    string
+	Mutex    string
+	Write    bool
+	Held     int8
+	Pos      token.Pos
+	How      string // "assign", "map-store", "delete", "call <callee>", "read"
 	ReadFree bool
 }
 
@@ -198,15 +198,15 @@ func lockOp(name string) (level int8, acquire, ok bool) {
 
 // event kinds inside one CFG node, in source order
 type lkEvent struct {
-	pos    token.Pos
-	kind   int // 0 lockop, 1 access, 2 call, 3 literal
-	mutex  string
-	level  int8
-	acq    bool
-	defer_ bool
-	acc    Access
-	callee *FuncInfo
-	lit    *FuncInfo
+	pos     token.Pos
+	kind    int // 0 lockop, 1 access, 2 call, 3 literal
+	mutex   string
+	level   int8
+	acq     bool
+	defer_  bool
+	acc     Access
+	callee  *FuncInfo
+	lit     *FuncInfo
 	litSync bool
 }
 
